@@ -195,3 +195,13 @@ for meta in sorted(glob.glob(os.path.join(_here, "seeded", "*", "meta.json"))):
     d = os.path.dirname(meta)
     MUTANTS.append(dict(id="seeded:" + os.path.basename(d), patch=os.path.join(d, "patch.diff"), props=m.get("checks", [m["property"]]),
                         desc="sub-agent: " + m.get("summary", "")))
+
+# behaviour-preserving change sets written by independent sub-agents (the property still holds: the checks must stay silent)
+NEUTRAL_CHECKS = {"C03": ["C03", "C04", "C14", "C18"], "C05": ["C05", "C06", "C07", "C13"], "C07": ["C07", "C05", "C17"], "C09": ["C09", "C10", "C11"],
+                  "C10": ["C10", "C09", "C11"], "C12": ["C12", "C14", "C11"], "C14": ["C14", "C03", "C12", "C05"], "C16": ["C16", "C15"],
+                  "C19": ["C19"], "C20": ["C20"]}
+for meta in sorted(glob.glob(os.path.join(_here, "neutral", "*", "meta.json"))):
+    d = os.path.dirname(meta)
+    pid = os.path.basename(d)
+    MUTANTS.append(dict(id="neutral:" + pid, patch=os.path.join(d, "patch.diff"), props=NEUTRAL_CHECKS.get(pid, [pid]), expect="hold",
+                        desc="sub-agent, behaviour-preserving: " + "; ".join(json.load(open(meta)).get("changes", []))[:300]))
